@@ -1,4 +1,7 @@
 SPECIFICATION Spec
+CONSTANTS
+  MaxLen = 3
+  NNames = 3
 INVARIANT OkMeansAligned
 INVARIANT PermutationAccepted
 INVARIANT SameLengthStrangerRefused
